@@ -66,7 +66,7 @@ def St.pubOf (st : St) (r : String) : Option Bytes :=
 def St.sigOf (st : St) (s : String) : Option Bytes :=
   if s.startsWith "=" then parseBytes? (s.drop 1).toString else st.sigs.lookup s
 
-def validBits (pk : Bytes) : String := bit (Secp256k1.decode pk).isSome ++ "," ++ bit (pk.length == 33)
+def validBits (pk : Bytes) : String := bit (Model.Keys.isFullyValid pk) ++ "," ++ bit (Model.Keys.isCompressed pk)
 
 def signVerdict (secret digest sig : Bytes) : String :=
   match Secp256k1.derDecodeStrict sig with
